@@ -408,6 +408,11 @@ def a11(ctx, rid):
                     if ogs and all(o.kind == 'field' and o.data[1] == 'active_blob' for o in ogs):
                         slot_edges += [tg for v, tg in t['vals'] if v == 1]
         bad = None
+        ret_calls = [o.data for o in core.origins(f, 0) if o.kind == 'call']
+        if ret_calls and all(any(t.endswith('::records_count_in_active_blob') and t != root for t in prog.resolve(c)) for c in ret_calls) \
+           and all(o.kind == 'call' for o in core.origins(f, 0)):
+            ctx.ok(rid, key, f.where(), 'delegates to another records_count_in_active_blob (checked as its own instance)', nontrivial=False)
+            continue
         for (bb, si, kind, r) in f.defs().get(0, []):
             if bb not in f.reachable():
                 continue
